@@ -74,6 +74,10 @@ class Actor:
         return "<Actor {}>".format(self.name)
 
 
+_CHANGING = frozenset(("open-w", "open-a", "open-x", "write", "truncate", "unlink", "rmdir",
+                       "mkdir", "rename"))
+
+
 class World:
     MAX_LOG = 4000
 
@@ -106,6 +110,11 @@ class World:
         self.fault_hook = None  # callable(world, actor, kind, path, detail) -> None|'kill'|OSError
         self.observers = []  # callables(world, actor, kind, path, detail) run before op
         self.scratch = None
+        # simulated file times: path -> ns.  Real timestamps would be a clock the
+        # simulator does not own (and tmpfs/ext4 stamp with jiffy granularity, so two
+        # changes microseconds apart look like none); here every change gets the
+        # unique, monotone time of its event.
+        self.mtimes = {}
 
     # ------------------------------------------------------------- actors
     def new_actor(self, name):
@@ -219,6 +228,53 @@ class World:
                 self.fired["io-error@" + kind] += 1
                 self.event(actor, "FAULT-io-error", path, getattr(f, "errno", None))
                 raise f
+
+        if kind in _CHANGING:
+            self._note_change(kind, path, detail)
+
+    SIM_EPOCH_NS = 1700000000 * 10 ** 9
+
+    def _note_change(self, kind, path, detail):
+        """(end of op(): the operation is now certain to be performed)"""
+        from . import interpose
+
+        ns = self.SIM_EPOCH_NS + self.steps * 1000
+        mt = self.mtimes
+        parent = os.path.dirname(path) if isinstance(path, str) else None
+        if kind in ("open-w", "open-a", "open-x"):
+            try:
+                interpose.real.lstat(path)
+                if kind == "open-w":
+                    mt[path] = ns
+            except OSError:
+                mt[path] = mt[parent] = ns
+        elif kind in ("write", "truncate"):
+            mt[path] = ns
+        elif kind in ("unlink", "rmdir"):
+            mt[parent] = ns
+            mt.pop(path, None)
+        elif kind == "mkdir":
+            mt[path] = mt[parent] = ns
+        elif kind == "rename" and isinstance(detail, str):
+            dst = detail if detail.startswith("/") else os.path.join(self.root, detail)
+            mt[parent] = mt[os.path.dirname(dst)] = ns
+            if path in mt:
+                mt[dst] = mt.pop(path)
+
+    def sim_times(self, path, st):
+        """os.stat_result with the simulated times of path"""
+        ns = self.mtimes.get(path, self.SIM_EPOCH_NS)
+        cls, (seq, extra) = st.__reduce__()[:2]
+        sec = ns // 10 ** 9
+        seq = tuple(seq[:7]) + (sec, sec, sec)
+        extra = dict(extra)
+        for k in ("st_atime", "st_mtime", "st_ctime"):
+            if k in extra:
+                extra[k] = ns / 1e9
+        for k in ("st_atime_ns", "st_mtime_ns", "st_ctime_ns"):
+            if k in extra:
+                extra[k] = ns
+        return cls(seq, extra)
 
     def kill(self, actor, kind):
         actor.dead = True
